@@ -215,7 +215,7 @@ func (w *serverWorld) serverTasksAlive() []*simrt.Task { return w.s.AliveSUT("km
 
 type ItemSc struct {
 	Tok  string `json:"tok"`             // handler script: actions part of the token
-	Op   string `json:"op,omitempty"`    // "" routed Activate | "unrouted" (Destroy, no route)
+	Op   string `json:"op,omitempty"`    // "" routed Activate | "unrouted" (Destroy, no route) | "discover" (built-in DiscoverVersions)
 	NoID bool   `json:"no_id,omitempty"` // no UniqueBatchItemID
 	Ext  string `json:"ext,omitempty"`   // "" | "plain" | "critical" message extension
 }
@@ -298,6 +298,9 @@ func buildRequest(rs *ReqSc, prefix string) *kmip.RequestMessage {
 		var bi kmip.RequestBatchItem
 		if it.Op == "unrouted" {
 			bi = kmip.RequestBatchItem{Operation: kmip.OperationDestroy, RequestPayload: &payloads.DestroyRequestPayload{UniqueIdentifier: id + "|" + it.Tok}}
+		} else if it.Op == "discover" {
+			// answered by the executor itself: no handler runs, the item succeeds
+			bi = kmip.RequestBatchItem{Operation: kmip.OperationDiscoverVersions, RequestPayload: &payloads.DiscoverVersionsRequestPayload{}}
 		} else {
 			bi = kmip.RequestBatchItem{Operation: kmip.OperationActivate, RequestPayload: &payloads.ActivateRequestPayload{UniqueIdentifier: id + "|" + it.Tok}}
 		}
@@ -320,6 +323,9 @@ func itemFails(it ItemSc) bool {
 	if it.Op == "unrouted" || it.Ext == "critical" {
 		return true
 	}
+	if it.Op == "discover" {
+		return false // answered by the executor itself; the scripted outcome never runs
+	}
 	for _, a := range strings.Split(it.Tok, ",") {
 		switch a {
 		case "et", "ep", "pe", "ps", "pS", "pi", "pn", "pk", "pK", "pm":
@@ -330,6 +336,8 @@ func itemFails(it ItemSc) bool {
 }
 
 // itemRunsHandler: does the handler run at all for this item (when it is reached)?
-func itemRunsHandler(it ItemSc) bool { return it.Op != "unrouted" && it.Ext != "critical" }
+func itemRunsHandler(it ItemSc) bool {
+	return it.Op != "unrouted" && it.Op != "discover" && it.Ext != "critical"
+}
 
 type netConn = net.Conn
